@@ -44,18 +44,18 @@ def run_demo(demo, root):
     return r.returncode, (r.stdout + r.stderr)[-600:]
 
 
-def harvest():
+def harvest(root='/tmp/seed', tag=''):
     os.makedirs(SEEDED, exist_ok=True)
     clean, _ = scratch()
     kept = 0
     try:
-        for patch in sorted(glob.glob('/tmp/seed/C*/out/patch*.diff')):
+        for patch in sorted(glob.glob(root + '/C*/out/patch*.diff')):
             out = os.path.dirname(patch)
             pid = os.path.basename(os.path.dirname(out))
             n = os.path.basename(patch)[5:-5]
             demo = os.path.join(out, 'demo%s.py' % n)
             meta = os.path.join(out, 'meta%s.json' % n)
-            sid = '%s-%s' % (pid, n)
+            sid = '%s-%s%s' % (pid, tag, n)
             if not (os.path.exists(demo) and os.path.exists(meta)):
                 print(sid, 'SKIP incomplete')
                 continue
@@ -150,7 +150,7 @@ def run(all_props=False, only=None):
 
 if __name__ == '__main__':
     if len(sys.argv) > 1 and sys.argv[1] == 'harvest':
-        harvest()
+        harvest(*(sys.argv[2:4]))      # harvest [root [tag]], e.g. harvest /tmp/seed2 r2-
     else:
         only = None
         for a in sys.argv[2:]:
